@@ -23,12 +23,10 @@
    A failing judgement is recorded in `bad` and the ghost state is
    re-synchronised from the observation, so one TLC run classifies a whole
    batch of scenarios.                                                      *)
-EXTENDS Naturals, Integers, Sequences, FiniteSets, TLC, Json, IOUtils, SequencesExt, FiniteSetsExt, Functions
+EXTENDS Naturals, Integers, Sequences, FiniteSets, TLC, Json, IOUtils, SequencesExt, FiniteSetsExt, Functions, Sql3VL
 
 Rec == ndJsonDeserialize(IOEnv.TRACE)
 N   == Len(Rec)
-NULL == -1
-
 VARIABLES l,        \* next event
           obs,      \* version number -> observed projection (function on a set of versions)
           hvT,      \* handle -> version
@@ -51,6 +49,7 @@ SeqToSet(s) == {s[i] : i \in 1..Len(s)}
 PRows(P) == UNION {{[fid |-> P.frags[i].id, off |-> r.off, id |-> r.c.id, val |-> r.c.val,
                      rid |-> r.rid, cre |-> r.cre, upd |-> r.upd] : r \in SeqToSet(P.frags[i].rows)}
                    : i \in 1..Len(P.frags)}
+PCells0(P) == UNION {{r.c : r \in SeqToSet(P.frags[i].rows)} : i \in 1..Len(P.frags)}
 PLogical(P) == {[id |-> r.id, val |-> r.val] : r \in PRows(P)}
 PIds(P) == {r.id : r \in PRows(P)}
 PRowOf(P, id) == CHOOSE r \in PRows(P) : r.id = id
@@ -138,6 +137,38 @@ DmlRel(L, P, D, NewKeys) ==
   /\ \A r \in PRows(P) : (r.id \in NewKeys) => r.fid \in NewFragIds(L, P)     \* and all of them
   /\ PIds(P) = (PIds(L) \ D) \cup NewKeys
 
+(***************************************************************************)
+(* The logical effect of a DML step, computed on the read version R with   *)
+(* the reference semantics (Sql3VL): rows removed, rows (re)inserted.      *)
+(***************************************************************************)
+CellOf(P, i) == CHOOSE c \in PCells0(P) : c.id = i
+SrcIds(st) == {st.src[i][1] : i \in 1..Len(st.src)}
+SrcVal(st, i) == st.src[CHOOSE k \in 1..Len(st.src) : st.src[k][1] = i][2]
+Effect(st, R) ==
+  LET op == st.op
+      cells == PCells0(R)
+      ids == {c.id : c \in cells}
+  IN
+  CASE op = "delete" ->
+         [del |-> {c.id : c \in {x \in cells : Holds(st.pred, x)}}, new |-> {}, val |-> <<>>, mustFail |-> FALSE,
+          unk |-> {c.id : c \in {x \in cells : Eval(st.pred, x) = "N"}}]
+    [] op = "update" ->
+         LET S == {c.id : c \in {x \in cells : Holds(st.pred, x)}} IN
+         [del |-> S, new |-> S, val |-> [i \in S |-> EvalExpr(st.setexpr, CellOf(R, i))], mustFail |-> FALSE,
+          unk |-> {c.id : c \in {x \in cells : Eval(st.pred, x) = "N"}}]
+    [] op = "merge_insert" ->
+         LET m == SrcIds(st) \cap ids
+             matched == IF "matched" \in DOMAIN st THEN st.matched ELSE "update_all"
+             notm == IF "not_matched" \in DOMAIN st THEN st.not_matched ELSE "insert_all"
+             nmbs == IF "nmbs" \in DOMAIN st THEN st.nmbs ELSE "keep"
+             upd == IF matched = "update_all" THEN m ELSE {}
+             ins == IF notm = "insert_all" THEN SrcIds(st) \ ids ELSE {}
+             gone == IF nmbs = "delete" THEN ids \ SrcIds(st) ELSE {}
+             dup == \E a, b \in 1..Len(st.src) : a # b /\ st.src[a][1] = st.src[b][1] /\ st.src[a][1] \in m
+         IN [del |-> upd \cup gone, new |-> upd \cup ins, val |-> [i \in upd \cup ins |-> SrcVal(st, i)],
+             mustFail |-> (matched = "fail" /\ m # {}) \/ (matched = "update_all" /\ dup), unk |-> {}]
+    [] OTHER -> [del |-> {}, new |-> {}, val |-> <<>>, mustFail |-> FALSE, unk |-> {}]
+
 \* Versions that were never projected (the fragment-id reservation commit that precedes a
 \* compaction's rewrite) have the contents of the closest earlier observed version.
 AtOrBefore(f, v) == f[Max({k \in DOMAIN f : k <= v})]
@@ -156,12 +187,11 @@ Judge(e) ==
       rv == IF h \in DOMAIN hvT THEN hvT[h] ELSE 0
       R  == IF rv \in DOMAIN obs THEN obs[rv] ELSE L
       ok == e.res = "ok"
-      isWrite == op \in {"append", "overwrite", "delete", "update", "merge_insert", "compact", "restore"}
+      isWrite == op \in {"append", "overwrite", "delete", "update", "merge_insert", "compact", "restore",
+                          "create_index", "optimize_indices"}
       \* keys the operation selected at its read version
-      sel == CASE op = "delete" -> {i \in PIds(R) : i \in SeqToSet(st.pred[3])}
-               [] op = "update" -> {i \in PIds(R) : i \in SeqToSet(st.pred[3])}
-               [] op = "merge_insert" -> {st.src[i][1] : i \in 1..Len(st.src)} \cap PIds(R)
-               [] OTHER -> {}
+      eff == Effect(st, R)
+      sel == eff.del
       between == UNION {touched[k] : k \in {x \in DOMAIN touched : x > rv /\ x <= Lv}}
   IN
   IF IsErr(P) THEN {"LatestUnreadable"}
@@ -176,18 +206,13 @@ Judge(e) ==
    ELSE
    CASE op = "append" -> IF AppendRel(L, P, st) THEN {} ELSE {"ScanEqualsModel"}
      [] op = "overwrite" -> IF OverwriteRel(L, P, st) THEN {} ELSE {"ScanEqualsModel"}
-     [] op = "delete" ->
+     [] op \in {"delete", "update", "merge_insert"} ->
+          \* (the comparison with the SQL reference semantics, C12, is JudgeDml below)
           (IF sel \cap between # {} THEN {"NoLostUpdate"} ELSE {})
-          \cup (IF sel = {} THEN (IF PRows(P) = PRows(L) THEN {} ELSE {"SerialEquivalence"})
-                ELSE IF DmlRel(L, P, sel, {}) THEN {} ELSE {"SerialEquivalence"})
-     [] op = "update" ->
-          (IF sel \cap between # {} THEN {"NoLostUpdate"} ELSE {})
-          \cup (IF sel = {} THEN (IF PRows(P) = PRows(L) THEN {} ELSE {"SerialEquivalence"})
-                ELSE IF DmlRel(L, P, sel, sel) THEN {} ELSE {"SerialEquivalence"})
-          \cup (IF P.stable /\ (\E r \in PRows(L), q \in PRows(P) : r.id = q.id /\ r.rid # q.rid) THEN {"RowIdStable"} ELSE {})
-     [] op = "merge_insert" ->
-          (IF sel \cap between # {} THEN {"NoLostUpdate"} ELSE {})
-          \cup (IF DmlRel(L, P, sel, {st.src[i][1] : i \in 1..Len(st.src)}) THEN {} ELSE {"SerialEquivalence"})
+          \cup (LET dObs == PIds(L) \ {r.id : r \in {x \in PRows(P) : x.fid \in PFragIds(L)}}
+                    nObs == {r.id : r \in {x \in PRows(P) : x.fid \notin PFragIds(L)}}
+                IN IF dObs = {} /\ nObs = {} THEN (IF PRows(P) = PRows(L) THEN {} ELSE {"SerialEquivalence"})
+                   ELSE IF DmlRel(L, P, dObs, nObs) THEN {} ELSE {"SerialEquivalence"})
           \cup (IF P.stable /\ (\E r \in PRows(L), q \in PRows(P) : r.id = q.id /\ r.rid # q.rid) THEN {"RowIdStable"} ELSE {})
      [] op = "compact" ->
           (IF P.v \in {Lv, Lv + 1, Lv + 2} THEN {} ELSE {"OneVersionPerCommit"})
@@ -197,6 +222,12 @@ Judge(e) ==
                 THEN {} ELSE {"RewritePreservesContents"})
           \* stable row ids survive a rewrite
           \cup (IF P.stable /\ (\E r \in PRows(L), q \in PRows(P) : r.id = q.id /\ r.rid # q.rid) THEN {"RowIdStable"} ELSE {})
+     [] op \in {"create_index", "optimize_indices"} ->
+          \* index maintenance never changes rows or fragments; index metadata names schema fields only
+          (IF P.frags = L.frags /\ P.v \in {Lv, Lv + 1} THEN {} ELSE {"SerialEquivalence"})
+          \cup (IF \A i \in 1..Len(P.indices) : \A f \in SeqToSet(P.indices[i].fields) :
+                       \E j \in 1..Len(P.schema) : P.schema[j].id = f
+                THEN {} ELSE {"WellFormed"})
      [] op = "restore" ->
           IF Known(obs, st.v) /\ st.v <= Lv
           THEN (IF P.v = Lv + 1 /\ P.frags = AtOrBefore(obs, st.v).frags THEN {} ELSE {"RestoreEqualsOld"})
@@ -209,18 +240,14 @@ Judge(e) ==
 \* expected logical table after the step (serial replay of the effect computed at the read version)
 SerialAfter(e, R) ==
   LET st == e.step
-      op == st.op IN
+      op == st.op
+      eff == Effect(st, R) IN
   IF e.res # "ok" THEN serial
   ELSE CASE op \in {"create", "overwrite"} -> RowsSet(StepRows(st))
          [] op = "append" -> serial \cup RowsSet(StepRows(st))
-         [] op = "delete" -> {r \in serial : ~(r.id \in SeqToSet(st.pred[3]) /\ r.id \in PIds(R))}
-         [] op = "update" ->
-              LET S == {i \in PIds(R) : i \in SeqToSet(st.pred[3])} IN
-              {r \in serial : r.id \notin S} \cup {[id |-> i, val |-> st.newval] : i \in S \cap {r.id : r \in serial}}
-         [] op = "merge_insert" ->
-              LET src == {[id |-> st.src[i][1], val |-> st.src[i][2]] : i \in 1..Len(st.src)}
-                  matched == {s.id : s \in src} \cap PIds(R) IN
-              {r \in serial : r.id \notin matched} \cup src
+         [] op \in {"delete", "update", "merge_insert"} ->
+              {r \in serial : r.id \notin eff.del}
+                \cup {[id |-> i, val |-> eff.val[i]] : i \in {x \in eff.new : x \notin eff.del \/ x \in {r.id : r \in serial}}}
          [] op = "restore" -> IF Known(obs, st.v) THEN PLogical(AtOrBefore(obs, st.v)) ELSE serial
          [] OTHER -> serial
 
@@ -228,30 +255,22 @@ SerialAfter(e, R) ==
 TruthAfter(e, R, P) ==
   LET st == e.step
       op == st.op
-      nv == P.v IN
+      nv == P.v
+      eff == Effect(st, R) IN
   IF e.res # "ok" THEN truth
   ELSE CASE op \in {"create", "overwrite"} -> [i \in PIds(P) |-> [cre |-> nv, upd |-> nv]]
          [] op = "append" -> [i \in PIds(P) |-> IF i \in DOMAIN truth THEN truth[i] ELSE [cre |-> nv, upd |-> nv]]
-         [] op = "delete" -> [i \in DOMAIN truth \cap PIds(P) |-> truth[i]]
-         [] op = "update" ->
-              LET S == {i \in PIds(R) : i \in SeqToSet(st.pred[3])} IN
-              [i \in DOMAIN truth |-> IF i \in S THEN [truth[i] EXCEPT !.upd = nv] ELSE truth[i]]
-         [] op = "merge_insert" ->
-              LET ids == {st.src[i][1] : i \in 1..Len(st.src)} IN
-              [i \in DOMAIN truth \cup ids |->
-                 IF i \in ids THEN (IF i \in PIds(R) /\ i \in DOMAIN truth THEN [truth[i] EXCEPT !.upd = nv]
-                                    ELSE [cre |-> nv, upd |-> nv])
+         [] op \in {"delete", "update", "merge_insert"} ->
+              [i \in ((DOMAIN truth) \ (eff.del \ eff.new)) \cup eff.new |->
+                 IF i \in eff.new
+                 THEN (IF i \in eff.del /\ i \in DOMAIN truth THEN [truth[i] EXCEPT !.upd = nv] ELSE [cre |-> nv, upd |-> nv])
                  ELSE truth[i]]
          [] op = "restore" -> IF Known(truthAt, st.v) THEN AtOrBefore(truthAt, st.v) ELSE truth
          [] OTHER -> truth
 
 TouchedBy(e, R) ==
-  LET st == e.step
-      op == st.op IN
   IF e.res # "ok" THEN {}
-  ELSE CASE op \in {"delete", "update"} -> {i \in PIds(R) : i \in SeqToSet(st.pred[3])}
-         [] op = "merge_insert" -> {st.src[i][1] : i \in 1..Len(st.src)} \cap PIds(R)
-         [] OTHER -> {}
+  ELSE IF e.step.op \in {"delete", "update", "merge_insert"} THEN Effect(e.step, R).del ELSE {}
 
 \* invariants that need the ghosts (evaluated on the post-state)
 GhostJudge(e, P, serial2, truth2, newIssued) ==
@@ -260,16 +279,139 @@ GhostJudge(e, P, serial2, truth2, newIssued) ==
         THEN {"VersionColumnsCorrect"} ELSE {})
   \cup (IF P.stable /\ newIssued \cap issued # {} THEN {"RowIdsNeverReused"} ELSE {})
 
-Ops == {"create","append","overwrite","checkout","refresh","delete","update","merge_insert","compact","restore","reread","validate"}
+(***************************************************************************)
+(* Queries (C16, C19) and random access (C15): judged against Sql3VL on    *)
+(* the latest observed version                                             *)
+(***************************************************************************)
+PCells(P) == UNION {{r.c : r \in SeqToSet(P.frags[i].rows)} : i \in 1..Len(P.frags)}
+PScanCells(P) == LET RECURSIVE go(_)
+                     go(i) == IF i > Len(P.frags) THEN <<>>
+                              ELSE [j \in 1..Len(P.frags[i].rows) |-> P.frags[i].rows[j].c] \o go(i+1)
+                 IN go(1)
+RECURSIVE HasNot(_)
+HasNot(p) == CASE p[1] = "not" -> TRUE
+               [] p[1] \in {"and", "or"} -> HasNot(p[2]) \/ HasNot(p[3])
+               [] p[1] = "cmp" -> p[3] = "<>"
+               [] OTHER -> FALSE
+KeyLE(a, b, asc, nullsFirst) ==      \* a may precede b in the requested order
+  IF a = NULL /\ b = NULL THEN TRUE
+  ELSE IF a = NULL THEN nullsFirst
+  ELSE IF b = NULL THEN ~nullsFirst
+  ELSE IF asc THEN a <= b ELSE a >= b
+Min2(a, b) == IF a < b THEN a ELSE b
+Max2(a, b) == IF a > b THEN a ELSE b
+
+\* judgement of one variant's result; returns a set of <<invariant, class>>
+JudgeVariant(st, L, q, indexed) ==
+  LET cells == PCells(L)
+      E == {c.id : c \in {x \in cells : Holds(st.pred, x)}}
+      U == {c.id : c \in {x \in cells : Eval(st.pred, x) = "N"}}
+      ids == q.ids
+      got == SeqToSet(ids)
+      hasOrder == "order" \in DOMAIN st
+      hasLimit == "limit" \in DOMAIN st \/ "offset" \in DOMAIN st
+      lim == IF "limit" \in DOMAIN st THEN st.limit ELSE 1000000
+      off == IF "offset" \in DOMAIN st THEN st.offset ELSE 0
+      usesIndex == indexed /\ ~("use_scalar_index" \in DOMAIN q.variant /\ ~q.variant.use_scalar_index)
+      inv == IF usesIndex THEN "IndexedScanEqualsEval" ELSE "ScanEqualsEval"
+      extra == got \ E
+      missing == E \ got
+      cls == IF missing = {} /\ extra # {} /\ extra \subseteq U /\ HasNot(st.pred) THEN "unknown-rows-kept-under-negation"
+             ELSE IF missing # {} /\ extra = {} THEN "rows-missing"
+             ELSE IF extra # {} /\ missing = {} THEN "extra-rows"
+             ELSE "wrong-rows"
+      expectedLen == Max2(0, Min2(lim, Cardinality(E) - off))
+  IN
+  IF q.res # "ok" THEN {<<inv, "query-failed">>}
+  ELSE
+  (IF Len(ids) # Cardinality(got) THEN {<<inv, "duplicate-rows">>} ELSE {})
+  \cup (IF ~hasLimit /\ got # E THEN {<<inv, cls>>} ELSE {})
+  \cup (IF hasLimit /\ ~(got \subseteq E) THEN {<<inv, cls>>} ELSE {})
+  \cup (IF hasLimit /\ got \subseteq E /\ Len(ids) # expectedLen THEN {<<inv, "limit-offset-count">>} ELSE {})
+  \cup (IF hasOrder /\ got \subseteq E
+        THEN LET asc == st.order.asc
+                 nf == st.order.nulls_first
+                 keyOf(i) == (CHOOSE c \in cells : c.id = i)[st.order.col]
+                 allKeys == SortSeq(SetToSeq(E), LAMBDA a, b : KeyLE(keyOf(a), keyOf(b), asc, nf) /\ ~(keyOf(a) = keyOf(b)))
+                 want == [i \in 1..expectedLen |-> keyOf(allKeys[off + i])]
+             IN (IF Len(q.keys) = Len(ids) /\ (\A i \in 1..Len(ids) : q.keys[i] = keyOf(ids[i])) THEN {} ELSE {<<inv, "order-key-mismatch">>})
+                \cup (IF Len(ids) = expectedLen /\ [i \in 1..Len(ids) |-> keyOf(ids[i])] = want THEN {} ELSE {<<inv, "order-by">>})
+        ELSE {})
+
+JudgeQuery(e, L, indexed) ==
+  IF "results" \notin DOMAIN e.extra THEN {<<IF indexed THEN "IndexedScanEqualsEval" ELSE "ScanEqualsEval", "query-failed">>}
+  ELSE
+  LET rs == e.extra.results
+      per == UNION {JudgeVariant(e.step, L, rs[i], indexed) : i \in 1..Len(rs)}
+      \* knob independence: all variants return the same set (when no limit picks freely)
+      sets == {SeqToSet(rs[i].ids) : i \in 1..Len(rs)}
+      free == ("limit" \in DOMAIN e.step \/ "offset" \in DOMAIN e.step) /\ ~("order" \in DOMAIN e.step)
+      \* count_rows(filter) (it always may use an index)
+      cells == PCells(L)
+      E == {c.id : c \in {x \in cells : Holds(e.step.pred, x)}}
+      U == {c.id : c \in {x \in cells : Eval(e.step.pred, x) = "N"}}
+      cnt1 == rs[1].count
+      cntBad == IF rs[1].res = "ok" /\ cnt1 # Cardinality(E)
+                THEN {<<IF indexed THEN "IndexedCountEqualsEval" ELSE "CountEqualsEval",
+                        IF cnt1 > Cardinality(E) /\ cnt1 <= Cardinality(E \cup U) /\ HasNot(e.step.pred)
+                        THEN "unknown-rows-kept-under-negation" ELSE "wrong-count">>}
+                ELSE {}
+  \* every variant is judged against the reference evaluation, which implies knob independence
+  IN per \cup cntBad
+
+JudgeTake(e, L) ==
+  LET st == e.step
+      scan == PScanCells(L)
+      keys == st.keys
+  IN IF st.by = "offset"
+     THEN (IF \A i \in 1..Len(keys) : keys[i] < Len(scan)
+           THEN (IF e.res = "ok" /\ e.extra.ids = [i \in 1..Len(keys) |-> scan[keys[i] + 1].id] THEN {} ELSE {<<"TakeEqualsScan", "offsets">>})
+           ELSE (IF e.res = "ok" THEN {<<"TakeEqualsScan", "out-of-range-accepted">>} ELSE {}))
+     ELSE LET rows == PRows(L)
+              \* by = "rowid": stable row ids; by = "addr": <<fragment, offset>> pairs (the driver composes
+              \* the 64-bit address, which does not fit TLC's integers)
+              ridOf(r) == IF st.by = "rowid" THEN r.rid ELSE <<r.fid, r.off>>
+              known == {ridOf(r) : r \in rows}
+          IN IF \A i \in 1..Len(keys) : keys[i] \in known
+             THEN (IF e.res = "ok" /\ e.extra.ids = [i \in 1..Len(keys) |-> (CHOOSE r \in rows : ridOf(r) = keys[i]).id]
+                   THEN {} ELSE {<<"TakeRowsEqualsScan", st.by>>})
+             ELSE {}    \* keys that name no live row: not specified by the property
+
+\* C12: the rows a DML statement removed / (re)inserted are the ones the SQL reference semantics selects
+JudgeDml(e, L, R, indexed) ==
+  LET st == e.step
+      P == e.latest
+      eff == Effect(st, R)
+      dObs == PIds(L) \ {r.id : r \in {x \in PRows(P) : x.fid \in PFragIds(L)}}
+      nObs == {r.id : r \in {x \in PRows(P) : x.fid \notin PFragIds(L)}}
+      wantDel == eff.del \cap PIds(L)
+      cls == IF wantDel \subseteq dObs /\ (dObs \ wantDel) \subseteq eff.unk /\ dObs # wantDel /\ indexed /\ HasNot(st.pred)
+             THEN "unknown-rows-affected-under-negation" ELSE "wrong-rows"
+  IN
+  IF e.res = "ok"
+  THEN (IF eff.mustFail THEN {<<"DmlMatchesSqlModel", "must-fail-accepted">>} ELSE {})
+       \cup (IF ~eff.mustFail /\ (dObs # wantDel \/ nObs # eff.new) THEN {<<"DmlMatchesSqlModel", cls>>} ELSE {})
+       \cup (IF ~eff.mustFail /\ nObs = eff.new /\ (\E i \in eff.new : PRowOf(P, i).val # eff.val[i])
+             THEN {<<"DmlMatchesSqlModel", "wrong-values">>} ELSE {})
+       \cup (IF st.op = "update" /\ "rows_updated" \in DOMAIN e.extra /\ e.extra.rows_updated # Cardinality(nObs)
+             THEN {<<"DmlMatchesSqlModel", "rows-updated-count">>} ELSE {})
+  ELSE {}
+
+Ops == {"create","append","overwrite","checkout","refresh","delete","update","merge_insert","compact","restore","reread","validate",
+        "query","take","create_index","optimize_indices"}
 
 Init == /\ l = 1 /\ obs = <<>> /\ hvT = <<>> /\ issued = {} /\ truth = <<>> /\ truthAt = <<>>
         /\ serial = {} /\ touched = <<>> /\ stable = FALSE /\ scn = 0 /\ bad = <<>>
         /\ cnt = [o \in Ops \cup {"scenarios", "ok", "retryable", "incompatible", "other", "stale_ok", "stale_conflict"} |-> 0]
 
-AddBad(names, e) == IF names = {} THEN bad
-                    ELSE IF Len(bad) < 300
-                    THEN bad \o SetToSeq({<<l, e.scn, e.i, e.step.op, nm>> : nm \in names})
-                    ELSE bad
+\* names: set of invariant names; pairs: set of <<invariant, class>>
+AddBad2(names, pairs, e) ==
+  IF names = {} /\ pairs = {} THEN bad
+  ELSE IF Len(bad) < 300
+  THEN bad \o SetToSeq({<<l, e.scn, e.i, e.step.op, nm, "">> : nm \in names}
+                        \cup {<<l, e.scn, e.i, e.step.op, pr[1], pr[2]>> : pr \in pairs})
+  ELSE bad
+AddBad(names, e) == AddBad2(names, {}, e)
 
 Reset(e) ==
   /\ obs' = <<>> /\ hvT' = <<>> /\ issued' = {} /\ truth' = <<>> /\ truthAt' = <<>>
@@ -305,11 +447,17 @@ Step(e) ==
            h == IF "h" \in DOMAIN st THEN st.h ELSE "main"
            rv == IF h \in DOMAIN hvT THEN hvT[h] ELSE 0
            R == IF rv \in DOMAIN obs THEN obs[rv] ELSE L
-           names1 == IF op = "reread"
+           usable == ~IsErr(P)
+           indexed == L.indices # <<>>
+           pairs == IF op = "query" THEN JudgeQuery(e, L, indexed)
+                    ELSE IF op = "take" THEN JudgeTake(e, L)
+                    ELSE IF op \in {"delete", "update", "merge_insert"} /\ usable THEN JudgeDml(e, L, R, indexed)
+                    ELSE {}
+           names1 == IF op \in {"query", "take"} THEN (IF e.latest # L THEN {"FailedHasNoEffect"} ELSE {})
+                     ELSE IF op = "reread"
                      THEN (IF e.res = "ok" /\ st.v \in DOMAIN obs /\ e.extra.proj # obs[st.v] THEN {"VersionsImmutable"} ELSE {})
                           \cup (IF e.res # "ok" /\ st.v \in DOMAIN obs THEN {"VersionsImmutable"} ELSE {})
                      ELSE Judge(e)
-           usable == ~IsErr(P)
            serial2 == SerialAfter(e, R)
            truth2 == IF usable THEN TruthAfter(e, R, P) ELSE truth
            \* row ids that this step handed out: ids of rows whose key was not live before (or all, for overwrite)
@@ -317,10 +465,14 @@ Step(e) ==
                         ELSE IF op = "overwrite" THEN {r.rid : r \in PRows(P)}
                         ELSE IF op = "restore" THEN {}
                         ELSE {r.rid : r \in {x \in PRows(P) : x.id \notin PIds(L)}}
-           names2 == IF usable /\ op # "reread" THEN GhostJudge(e, P, serial2, truth2, newIssued) ELSE {}
-           names == names1 \cup names2
+           dmlBad == \E pr \in pairs : pr[1] = "DmlMatchesSqlModel"
+           \* a statement that selected the wrong rows is reported once, as DmlMatchesSqlModel (C12)
+           names2 == IF usable /\ op # "reread"
+                     THEN GhostJudge(e, P, serial2, truth2, newIssued) \ (IF dmlBad THEN {"SerialEquivalence", "VersionColumnsCorrect"} ELSE {})
+                     ELSE {}
+           names == names1 \cup names2 \cup {pr[1] : pr \in {x \in pairs : x[1] = "DmlMatchesSqlModel"}}
            stale == rv # 0 /\ rv < Lv /\ op \in {"append","delete","update","merge_insert","compact"}
-       IN /\ bad' = AddBad(names, e)
+       IN /\ bad' = AddBad2(names1 \cup names2, pairs, e)
           /\ obs' = IF usable /\ P.v \notin DOMAIN obs THEN obs @@ (P.v :> P) ELSE obs
           /\ hvT' = e.handles
           \* re-synchronise the ghosts with the observation after a violation so it is reported once
